@@ -99,8 +99,11 @@ def make_env(ctx):
             else:
                 self.ld = self.ldmin + rng.choice([0, 0, 1, 3])
                 self.off = 0 if nooff else rng.choice([0, 0, 1, 5])
-                extra = rng.choice([0, 0, 2])
+                extra = rng.choice([0, 0, 2, -1, -1])
                 self.req = self.off + (cl - 1) * self.ld + r if (r > 0 and cl > 0) else 0
+                if extra < 0:        # every column padded to the full leading dimension (sub-block of a host matrix)
+                    minlen = max(minlen, self.off + cl * self.ld)
+                    extra = rng.choice([0, 2])
                 L = max(self.req, self.off, minlen) + extra
                 self.shape = (L, 1)
             self.L = L
@@ -254,35 +257,144 @@ def make_env(ctx):
         a2 = [copies[id(a)] if isinstance(a, Blk) else a for a in args]
         k2 = {k: (copies[id(v)] if isinstance(v, Blk) else v) for k, v in kw2.items()}
         imgs = {i: bytes(memoryview(m)) for i, m in copies.items()}
+        _trace("invalid-" + kind, fname, args, kw2)
         ctx.count("mut." + kind)
         what = "%s with %s" % (fname, {"short": "buffer of %s one element too short", "ld": "ld of %s below its minimum",
                                        "negoff": "negative offset for %s", "tci": "wrong typecode for %s",
                                        "flip": "typecode of %s flipped d<->z", "grow": "%s increased by 40"}[kind]
                                % (tgt if kind == "grow" else tgt.name))
-        try:
-            getattr(lapack, fname)(*a2, **k2)
-        except (TypeError, ValueError):
+        # size-inconsistent calls run in the canary only: a wrapper that accepts one may write out of bounds
+        outcome, msg, modified = _remote(fname, a2, k2)
+        kwshow = {k: v for k, v in kw2.items() if not isinstance(v, Blk)}
+        lens = {b.name: {"len": len(copies[id(b)]), "needs": b.req} for b in blks}
+        if outcome in ("TypeError", "ValueError"):
             ctx.count("invalid.rejected")
-            same_after = all(bytes(memoryview(m)) == imgs[i] for i, m in copies.items())
-            c.require(same_after, "%s:invalid-%s-args-modified" % (fname, kind),
+            c.require(not modified, "%s:invalid-%s-args-modified" % (fname, kind),
                       what + ": rejected, but an argument was modified")
             return
-        except Exception as e:
-            c.check()
-            c.fail("%s:invalid-%s-wrong-exception" % (fname, kind),
-                   what + ": raised %s (%s) instead of TypeError/ValueError" % (type(e).__name__, e))
-            return
         c.check()
-        c.fail("%s:invalid-%s-accepted" % (fname, kind), what + ": accepted",
-               kwargs={k: v for k, v in kw2.items() if not isinstance(v, Blk)})
+        if outcome == "died":
+            c.fail("%s:crash-on-invalid-%s" % (fname, kind), what + ": kills the interpreter (%s)" % msg, kwargs=kwshow, buffers=lens)
+        elif outcome == "returned":
+            _canary_stop(kill=True)        # its heap may be damaged now
+            c.fail("%s:invalid-%s-accepted" % (fname, kind), what + ": accepted", kwargs=kwshow, buffers=lens)
+        else:
+            _canary_stop(kill=True)
+            c.fail("%s:invalid-%s-wrong-exception" % (fname, kind),
+                   what + ": raised %s (%s) instead of TypeError/ValueError" % (outcome, msg), kwargs=kwshow, buffers=lens)
+
+    # Every call is first executed in a long-lived forked "canary" child on pickled copies of the
+    # arguments, so that a wrapper that kills the interpreter (e.g. a keyword parsed into a wild
+    # pointer) costs one violation, not the worker: when the canary dies the call is reported and
+    # skipped in this process, and a new canary is forked.  (select call-backs are not sent.)
+    import os, pickle, faulthandler, signal as _signal
+    can = {"pid": None, "fin": None, "fout": None}
+
+    def _canary_start():
+        r1, w1 = os.pipe(); r2, w2 = os.pipe()
+        ctx.jf.flush()
+        pid = os.fork()
+        if pid == 0:
+            try:
+                os.close(w1); os.close(r2)
+                faulthandler.disable()
+                _signal.alarm(0)
+                fin, fout = os.fdopen(r1, "rb"), os.fdopen(w2, "wb")
+                while True:
+                    try:
+                        fname, a, k = pickle.load(fin)
+                    except EOFError:
+                        break
+                    mats = [v for v in list(a) + list(k.values()) if type(v).__name__ == "matrix"]
+                    imgs = [bytes(memoryview(v)) for v in mats]
+                    out = ["returned", "", False]
+                    try:
+                        getattr(lapack, fname)(*a, **k)
+                    except BaseException as e:
+                        out = [type(e).__name__, str(e)[:300], False]
+                    out[2] = any(bytes(memoryview(v)) != im for v, im in zip(mats, imgs))
+                    pickle.dump(out, fout, protocol=2); fout.flush()
+            finally:
+                os._exit(0)
+        os.close(r1); os.close(w2)
+        can["pid"], can["fin"], can["fout"] = pid, os.fdopen(r2, "rb"), os.fdopen(w1, "wb")
+        ctx.count("probe.canaries")
+
+    def _canary_stop(kill=False):
+        pid = can["pid"]
+        if pid is None:
+            return None
+        if kill:
+            try:
+                os.kill(pid, _signal.SIGKILL)
+            except OSError:
+                pass
+        for f in (can["fin"], can["fout"]):
+            try:
+                f.close()
+            except Exception:
+                pass
+        _, status = os.waitpid(pid, 0)
+        can["pid"] = None
+        return status
+
+    def _remote(fname, a2, k2):
+        """run the call in the canary: ('died', how) or (outcome, message, args_modified)"""
+        if can["pid"] is None:
+            _canary_start()
+        k3 = {k: v for k, v in k2.items() if not callable(v)}
+        out = None
+        try:
+            pickle.dump((fname, a2, k3), can["fout"], protocol=pickle.HIGHEST_PROTOCOL)
+            can["fout"].flush()
+            out = pickle.load(can["fin"])
+        except (BrokenPipeError, EOFError, pickle.UnpicklingError):
+            out = None
+        except BaseException:
+            _canary_stop(kill=True)
+            raise
+        if out is not None:
+            return tuple(out)
+        status = _canary_stop()
+        if status is not None and os.WIFSIGNALED(status):
+            return ("died", "signal %d" % os.WTERMSIG(status), False)
+        return ("died", "status %r" % (status,), False)
+
+    def _probe(fname, a2, k2, sig=None):
+        out = _remote(fname, a2, k2)
+        return out[1] if out[0] == "died" else None
+    E.probe = _probe
+
+    TRACE = bool(os.environ.get("C18_TRACE"))
+
+    def _trace(tag, fname, args, kw):
+        if TRACE:
+            import sys
+            d = lambda v: ("<%s %s %dx%d ld=%d off=%d len=%d %s>" % (v.name, v.tc, v.rows, v.cols, v.ld, v.off, v.L, v.mode)) if isinstance(v, Blk) else repr(v)
+            sys.stderr.write("C18 %s %s(%s; %s)\n" % (tag, fname, ", ".join(d(a) for a in args),
+                                                       ", ".join("%s=%s" % (k, d(v)) for k, v in kw.items())))
+            sys.stderr.flush()
+
+    def _sig(fname, args, kw, extra=""):
+        tcs = "".join(a.tc for a in list(args) + list(kw.values()) if isinstance(a, Blk))
+        return (fname, tuple(sorted(kw)), tcs, extra)
 
     def call(c, fname, args, kw, mutable=False, grow=(), expect=None):
         """returns (ok, return value).  expect = exception class that the VALID call must raise"""
+        a2 = [a.mat if isinstance(a, Blk) else a for a in args]
+        k2 = {k: (v.mat if isinstance(v, Blk) else v) for k, v in kw.items()}
+        _trace("valid", fname, args, kw)
+        died = _probe(fname, a2, k2, _sig(fname, args, kw))
+        if died:
+            ctx.count("fn." + fname)
+            ctx.count("crash." + fname)
+            c.check()
+            c.fail("%s:crash" % fname, "%s kills the interpreter (%s) on a valid call with keywords %s"
+                   % (fname, died, sorted(kw)), kwargs={k: v for k, v in kw.items() if not isinstance(v, Blk)})
+            return False, None
         if mutable and c.rng.random() < 0.6:
             _try_invalid(c, fname, args, kw, grow)
         ctx.count("fn." + fname)
-        a2 = [a.mat if isinstance(a, Blk) else a for a in args]
-        k2 = {k: (v.mat if isinstance(v, Blk) else v) for k, v in kw.items()}
         try:
             ret = getattr(lapack, fname)(*a2, **k2)
         except Exception as e:
@@ -294,6 +406,11 @@ def make_env(ctx):
             if isinstance(e, TypeError) and "invalid keyword" in str(e):
                 c.fail("%s:documented-keyword-rejected" % fname,
                        "%s rejects a documented keyword: %s" % (fname, e), keywords=sorted(kw))
+            elif isinstance(e, TypeError) and "is too small" in str(e):
+                c.fail("%s:valid-buffer-rejected-as-too-short" % fname,
+                       "%s rejects a buffer that holds the addressed block (offset + (cols-1)*ld + rows elements): %s" % (fname, e),
+                       kwargs={k: v for k, v in kw.items() if not isinstance(v, Blk)},
+                       lengths={b.name: [b.L, b.req] for b in list(args) + list(kw.values()) if isinstance(b, Blk)})
             elif expect is not None:
                 c.fail("%s:singular-wrong-exception" % fname,
                        "%s raised %s (%s) instead of %s" % (fname, type(e).__name__, e, expect.__name__))
@@ -379,6 +496,7 @@ def fam_ge(E, c):
         foot(c, "gesv", A, B, ip)
         if X1 is not None:
             resid(c, "equal", "gesv:ipiv-vs-no-ipiv", X2 - X1, cond * E.nrm(X1), n, "gesv with and without ipiv")
+    if ok and pos:
         _check_plu(E, c, "gesv", A0, A.get(), ip.vec()[:n], n, n)
         # getrs on these factors, every trans
         for trans in (["N", "T", "C"] if rng.random() < 0.5 else [rng.choice("NTC")]):
@@ -459,9 +577,11 @@ def fam_gb(E, c):
     junk = lambda p, j: complex(rng.uniform(5, 9), rng.uniform(5, 9)) if tc == "z" else rng.uniform(5, 9)
     ABs = R.gb_pack(A0, kl, ku, 0, junk)          # kl+ku+1 rows
     ABp = R.gb_pack(A0, kl, ku, kl, junk)         # 2kl+ku+1 rows, data in rows kl..
-    # --- gbsv without ipiv
-    A, B = Blk(rng, ABs, tc, mode, "A"), Blk(rng, B0, tc, mode, "B")
-    kw = E.dims(mode, n=n, nrhs=nrhs, ku=ku); kw.update(A.kw("ldA", "offsetA")); kw.update(B.kw("ldB", "offsetB"))
+    # --- gbsv without ipiv  (half of the embedded calls leave the offsets at their default 0)
+    useoff = rng.random() < 0.5
+    oA_, oB_ = ("offsetA", "offsetB") if useoff else (None, None)
+    A, B = Blk(rng, ABs, tc, mode, "A", nooff=not useoff), Blk(rng, B0, tc, mode, "B", nooff=not useoff)
+    kw = E.dims(mode, n=n, nrhs=nrhs, ku=ku); kw.update(A.kw("ldA", oA_)); kw.update(B.kw("ldB", oB_))
     ok, _ = call(c, "gbsv", [A, kl, B], kw, mutable=pos, grow=grow)
     X1 = None
     if ok:
@@ -471,9 +591,9 @@ def fam_gb(E, c):
         resid(c, "solve", "gbsv:residual", A0 @ X1 - B0, nA * E.nrm(X1), n, "gbsv(A,kl,B): A X - B")
         foot(c, "gbsv", B)
     # --- gbsv with ipiv
-    A, B = Blk(rng, ABp, tc, mode, "A"), Blk(rng, B0, tc, mode, "B")
+    A, B = Blk(rng, ABp, tc, mode, "A", nooff=not useoff), Blk(rng, B0, tc, mode, "B", nooff=not useoff)
     ip = Blk(rng, np.zeros(n), "i", mode, "ipiv", nooff=True)
-    kw = E.dims(mode, n=n, nrhs=nrhs, ku=ku); kw.update(A.kw("ldA", "offsetA")); kw.update(B.kw("ldB", "offsetB"))
+    kw = E.dims(mode, n=n, nrhs=nrhs, ku=ku); kw.update(A.kw("ldA", oA_)); kw.update(B.kw("ldB", oB_))
     ok, _ = call(c, "gbsv", [A, kl, B, ip], kw, mutable=pos, grow=grow)
     facs = []
     if ok:
@@ -570,7 +690,8 @@ def fam_gt(E, c):
             for b in (dl, d, du, du2, ip):
                 b.rebase()
             kw = E.dims(mode, n=n, nrhs=nrhs); kw.update(offkw(dl, d, du)); kw.update(Bt.kw("ldB", "offsetB"))
-            kw["trans"] = trans
+            if trans != "N" or rng.random() < 0.5:
+                kw["trans"] = trans
             ok2, _ = call(c, "gttrs", [dl, d, du, du2, ip, Bt], kw, mutable=pos and n > 2, grow=grow)
             if ok2:
                 X = Bt.get()
@@ -663,8 +784,10 @@ def fam_pb(E, c):
         T = R.sb_unpack_tri(F, n, kd, uplo)
         rec = T @ R.H(T) if uplo == "L" else R.H(T) @ T
         resid(c, "factor", "%s:cholesky-reconstruct" % fname, rec - A0, nA, n, "%s: band L L^H - A (uplo=%s,kd=%d)" % (fname, uplo, kd))
-    A, B = Blk(rng, AB, tc, mode, "A"), Blk(rng, B0, tc, mode, "B")
-    kw = E.dims(mode, n=n, kd=kd, nrhs=nrhs); kw.update(A.kw("ldA", "offsetA")); kw.update(B.kw("ldB", "offsetB")); kw.update(ukw)
+    useoffB = rng.random() < 0.5
+    oB_ = "offsetB" if useoffB else None
+    A, B = Blk(rng, AB, tc, mode, "A"), Blk(rng, B0, tc, mode, "B", nooff=not useoffB)
+    kw = E.dims(mode, n=n, kd=kd, nrhs=nrhs); kw.update(A.kw("ldA", "offsetA")); kw.update(B.kw("ldB", oB_)); kw.update(ukw)
     ok, _ = call(c, "pbsv", [A, B], kw, mutable=pos, grow=grow)
     X1 = None
     if ok:
@@ -679,9 +802,9 @@ def fam_pb(E, c):
     if ok:
         foot(c, "pbtrf", A)
         chol_ok("pbtrf", A.get())
-        Bt = Blk(rng, B0, tc, mode, "B")
+        Bt = Blk(rng, B0, tc, mode, "B", nooff=not useoffB)
         A.rebase()
-        kw = E.dims(mode, n=n, kd=kd, nrhs=nrhs); kw.update(A.kw("ldA", "offsetA")); kw.update(Bt.kw("ldB", "offsetB")); kw.update(ukw)
+        kw = E.dims(mode, n=n, kd=kd, nrhs=nrhs); kw.update(A.kw("ldA", "offsetA")); kw.update(Bt.kw("ldB", oB_)); kw.update(ukw)
         ok2, _ = call(c, "pbtrs", [A, Bt], kw, mutable=pos, grow=grow)
         if ok2:
             X = Bt.get()
@@ -1183,10 +1306,17 @@ def fam_gv(E, c):
     itype, jobz, uplo = rng.choice([1, 2, 3]), rng.choice("NV"), rng.choice("LU")
     A0 = R.herm_with_eigs(rng, R.separated(rng, n), tc)
     B0 = R.herm_posdef(rng, n, tc, cond=30.0)
-    A = Blk(rng, R.junk_other_triangle(rng, A0, uplo, tc), tc, mode, "A")
-    B = Blk(rng, R.junk_other_triangle(rng, B0, uplo, tc), tc, mode, "B")
-    W = Blk(rng, np.zeros(n), "d", mode, "W", tcrule="fixed")
-    kw = E.dims(mode, n=n); kw.update(A.kw("ldA", "offsetA")); kw.update(B.kw("ldB", "offsetB")); kw.update(W.kw(None, "offsetW"))
+    ldaonly = (mode == "emb" and rng.random() < 0.5)
+    if ldaonly:
+        A = Blk(rng, R.junk_other_triangle(rng, A0, uplo, tc), tc, "emb", "A", nooff=True)
+        B = Blk(rng, R.junk_other_triangle(rng, B0, uplo, tc), tc, "nat", "B")
+        W = Blk(rng, np.zeros(n), "d", "nat", "W", tcrule="fixed")
+        kw = {"n": n}; kw.update(A.kw("ldA", None)); B.kw(None, None); W.kw(None, None)
+    else:
+        A = Blk(rng, R.junk_other_triangle(rng, A0, uplo, tc), tc, mode, "A")
+        B = Blk(rng, R.junk_other_triangle(rng, B0, uplo, tc), tc, mode, "B")
+        W = Blk(rng, np.zeros(n), "d", mode, "W", tcrule="fixed")
+        kw = E.dims(mode, n=n); kw.update(A.kw("ldA", "offsetA")); kw.update(B.kw("ldB", "offsetB")); kw.update(W.kw(None, "offsetW"))
     if itype != 1 or rng.random() < 0.5:
         kw["itype"] = itype
     if jobz == "V" or rng.random() < 0.5:
@@ -1337,7 +1467,7 @@ def fam_gees(E, c):
     sel, selname = _pick_select(E, rng, ev, tc)
     if sel is not None:
         E.ctx.count("select.used")
-        kw["select"] = (lambda s: sel(s))
+        kw["select"] = (lambda s: bool(sel(s)))
     kw.update(E.dims(mode, n=n)); kw.update(A.kw("ldA", "offsetA"))
     ok, sdim = call(c, "gees", [A], kw, mutable=n > 0, grow=["n"])
     if ok:
@@ -1353,7 +1483,7 @@ def fam_gees(E, c):
                 resid(c, "orth", "gees:V-not-unitary", R.H(V) @ V - np.eye(n), 1.0, n, what + ": V^H V - I")
             # eigenvalues along the diagonal (blocks for the real form)
             wT = _block_eigs(E, T, tc)
-            resid(c, "schur", "gees:spectrum", np.sort_complex(wT) - np.sort_complex(ev), max(nA, 1e-300) * 1e6, n,
+            resid(c, "schur", "gees:spectrum", _spec_dist(np, wT, ev), max(nA, 1e-300) * 1e6, n,
                   what + ": eigenvalues of S vs numpy.linalg.eigvals(A) (loose)")
             wv = wT
             if wb is not None:
@@ -1371,6 +1501,18 @@ def fam_gees(E, c):
         else:
             c.require(sdim in (0, None), "gees:sdim", "n=0 but sdim=%r" % (sdim,))
     c.cls("gees", tc, mode, E.sz(n), "w" if wb else "-", "V" if Vb else "-", selname)
+
+
+def _spec_dist(np, a, b):
+    """distances of a greedy nearest-neighbour matching of two spectra"""
+    a = [complex(z) for z in a]
+    b = [complex(z) for z in b]
+    out = []
+    for z in a:
+        j = min(range(len(b)), key=lambda i: abs(b[i] - z))
+        out.append(abs(b[j] - z))
+        b.pop(j)
+    return np.array(out)
 
 
 def _match_pairs(np, a, b):
@@ -1425,9 +1567,402 @@ def _pick_select(E, rng, ev, tc, gen=False):
         else:
             t = float(re[0]) - 1.0 if len(re) else 0.0
         if rng.random() < 0.5:
-            return (lambda s, t=t: s.real < t), "re<t"
-        return (lambda s, t=t: s.real > t), "re>t"
+            return (lambda s, t=t: bool(s.real < t)), "re<t"
+        return (lambda s, t=t: bool(s.real > t)), "re>t"
     im = np.abs(np.imag(ev))
     if np.any((im > 1e-9) & (im < 0.1)):
         return (lambda s: False), "never"
-    return (lambda s: s.imag > 0.05), "im>0"
+    return (lambda s: bool(s.imag > 0.05)), "im>0"
+
+
+def fam_gges(E, c):
+    np, R, Blk, call, resid, foot = E.np, E.R, E.Blk, E.call, E.resid, E.foot
+    rng = c.rng
+    tc, n, mode = E.pick_tc(rng), E.pick_n(rng), E.pick_mode(rng)
+    # planted pencil: A = Ql S0 Qr^H, B = Ql T0 Qr^H, T0 upper triangular with diagonal in [0.5,2]
+    S0 = R.schur_planted(rng, n, tc)
+    T0 = np.triu(R.rnd(rng, n, n, tc, -0.3, 0.3), 1) + np.diag([rng.uniform(0.5, 2.0) for _ in range(n)]) if n else np.zeros((0, 0))
+    Ql, Qr = R.orth(rng, n, tc), R.orth(rng, n, tc)
+    A0 = Ql @ S0 @ R.H(Qr) if n else np.zeros((0, 0), dtype=R.dtype_of(tc))
+    B0 = (Ql @ T0 @ R.H(Qr)).astype(R.dtype_of(tc)) if n else np.zeros((0, 0), dtype=R.dtype_of(tc))
+    ev = np.linalg.eigvals(np.linalg.solve(B0, A0)) if n else np.zeros(0, dtype=complex)
+    A, B = Blk(rng, A0, tc, mode, "A"), Blk(rng, B0, tc, mode, "B")
+    kw = {}
+    ab = bb = Vl = Vr = None
+    if rng.random() < 0.75:
+        ab = Blk(rng, np.zeros(n), "z", mode, "a", tcrule="fixed")
+        bb = Blk(rng, np.zeros(n), "d", mode, "b", tcrule="fixed")
+        kw["a"] = ab; kw["b"] = bb; kw.update(ab.kw(None, "offseta")); kw.update(bb.kw(None, "offsetb"))
+    r = rng.random()
+    if r < 0.6 or (0.6 <= r < 0.75):
+        Vl = Blk(rng, R.rnd(rng, n, n, tc, 5, 9), tc, mode, "Vl")
+        kw["Vl"] = Vl; kw.update(Vl.kw("ldVl", "offsetVl"))
+    if r < 0.6 or (0.75 <= r < 0.9):
+        Vr = Blk(rng, R.rnd(rng, n, n, tc, 5, 9), tc, mode, "Vr")
+        kw["Vr"] = Vr; kw.update(Vr.kw("ldVr", "offsetVr"))
+    sel1, selname = _pick_select(E, rng, ev, tc)
+    sel = None
+    if sel1 is not None:
+        E.ctx.count("select.used")
+        sel = lambda x, y: bool(sel1(x / y)) if y != 0 else False
+        kw["select"] = (lambda x, y: bool(sel(x, y)))
+    kw.update(E.dims(mode, n=n)); kw.update(A.kw("ldA", "offsetA")); kw.update(B.kw("ldB", "offsetB"))
+    ok, sdim = call(c, "gges", [A, B], kw, mutable=n > 0, grow=["n"])
+    if ok:
+        foot(c, "gges", A, B, ab, bb, Vl, Vr)
+        what = "gges(%s,n=%d,select=%s)" % (tc, n, selname)
+        if n:
+            S, T = A.get(), B.get()
+            _quasi_ok(E, c, "gges", S, tc, what + " S")
+            c.require(bool(np.all(np.tril(T, -1) == 0)), "gges:T-not-upper-triangular", what + ": T has nonzeros below the diagonal", T=T)
+            td = np.diag(T)
+            if sel is None:
+                # (after a select-driven reordering the reference LAPACK itself may leave a negative entry in a
+                # 2x2 block of T; that is outside the repository and not demanded here)
+                c.require(bool(np.all(np.abs(np.imag(td)) == 0)) and bool(np.all(np.real(td) >= 0)), "gges:T-diagonal-not-nonnegative",
+                          what + ": diagonal of T must be real and nonnegative", diag=td)
+            nA, nB = E.nrm(A0), E.nrm(B0)
+            if Vl is not None and Vr is not None:
+                L_, R_ = Vl.get(), Vr.get()
+                resid(c, "schur", "gges:reconstruct-A", L_ @ S @ R.H(R_) - A0, nA, n, what + ": Vl S Vr^H - A")
+                resid(c, "schur", "gges:reconstruct-B", L_ @ T @ R.H(R_) - B0, nB, n, what + ": Vl T Vr^H - B")
+            elif Vl is not None:
+                L_ = Vl.get()
+                resid(c, "schur", "gges:reconstruct-A", R.H(L_) @ A0 @ R.H(A0) @ L_ - S @ R.H(S), nA * nA, n, what + ": Vl^H A A^H Vl - S S^H")
+                resid(c, "schur", "gges:reconstruct-B", R.H(L_) @ B0 @ R.H(B0) @ L_ - T @ R.H(T), nB * nB, n, what + ": Vl^H B B^H Vl - T T^H")
+            elif Vr is not None:
+                R_ = Vr.get()
+                resid(c, "schur", "gges:reconstruct-A", R.H(R_) @ R.H(A0) @ A0 @ R_ - R.H(S) @ S, nA * nA, n, what + ": Vr^H A^H A Vr - S^H S")
+                resid(c, "schur", "gges:reconstruct-B", R.H(R_) @ R.H(B0) @ B0 @ R_ - R.H(T) @ T, nB * nB, n, what + ": Vr^H B^H B Vr - T^H T")
+            for nm, Vb in (("Vl", Vl), ("Vr", Vr)):
+                if Vb is not None:
+                    resid(c, "orth", "gges:%s-not-unitary" % nm, R.H(Vb.get()) @ Vb.get() - np.eye(n), 1.0, n, what + ": %s^H %s - I" % (nm, nm))
+            # generalised eigenvalues
+            if ab is not None:
+                av, bv = ab.vec()[:n], bb.vec()[:n]
+                # each (a_i, b_i) must make the pencil of its diagonal block singular:  b_i S_blk - a_i T_blk
+                blocks = [(i, 1) for i in range(n)] if tc == "z" else R.quasi_blocks(S)
+                worst, wscale = 0.0, 1.0
+                res = []
+                for st, szb in blocks:
+                    for i in range(st, st + szb):
+                        M = bv[i] * S[st:st + szb, st:st + szb] - av[i] * T[st:st + szb, st:st + szb]
+                        smin = np.linalg.svd(M, compute_uv=False)[-1]
+                        res.append(smin / max(abs(bv[i]) * E.nrm(S[st:st + szb, st:st + szb]) + abs(av[i]) * E.nrm(T[st:st + szb, st:st + szb]), 1e-300))
+                resid(c, "schur", "gges:a-b-not-eigenvalues-of-blocks", np.array(res), 1.0, n, what + ": b_i S_kk - a_i T_kk singular")
+                if sel is None:
+                    c.require(bool(np.all(bv >= 0)), "gges:b-negative", what + ": b must be nonnegative", b=bv)
+                lam = av / bv
+                resid(c, "schur", "gges:spectrum", _spec_dist(np, lam, ev), max(float(np.max(np.abs(ev))), 1e-300) * 1e6, n,
+                      what + ": a/b vs numpy eigenvalues of B^-1 A (loose)")
+                if sel is not None:
+                    flags = [bool(sel(complex(x), float(y)) or (tc == "d" and sel(complex(x).conjugate(), float(y)))) for x, y in zip(av, bv)]
+                    cnt = sum(flags)
+                    c.require(sdim == cnt, "gges:sdim", what + ": returned sdim=%r, %d eigenvalues satisfy select" % (sdim, cnt), a=av, b=bv)
+                    c.require(all(flags[:cnt]) and not any(flags[cnt:]), "gges:selected-not-leading",
+                              what + ": selected eigenvalues do not lead the diagonal", flags=flags)
+            if sel is None:
+                c.require(sdim == 0, "gges:sdim", what + ": sdim=%r without select" % (sdim,))
+            elif ab is None:
+                cntref = sum(1 for z in ev if sel1(complex(z)) or (tc == "d" and sel1(complex(z).conjugate())))
+                c.require(sdim == cntref, "gges:sdim", what + ": returned sdim=%r, %d reference eigenvalues satisfy select" % (sdim, cntref))
+        else:
+            c.require(sdim in (0, None), "gges:sdim", "n=0 but sdim=%r" % (sdim,))
+    c.cls("gges", tc, mode, E.sz(n), "ab" if ab else "-", ("l" if Vl else "-") + ("r" if Vr else "-"), selname)
+
+
+# ============================================================================
+# auxiliary:  lacpy larfg larfx
+# ============================================================================
+def fam_aux(E, c):
+    np, R, Blk, call, resid, foot = E.np, E.R, E.Blk, E.call, E.resid, E.foot
+    rng = c.rng
+    which = rng.choice(["lacpy", "larfg", "larfx"])
+    tc, mode = E.pick_tc(rng), E.pick_mode(rng)
+    if which == "lacpy":
+        m, n, uplo = E.pick_n(rng), E.pick_n(rng), rng.choice("NLU")
+        A0, B0 = R.rnd(rng, m, n, tc), R.rnd(rng, m, n, tc, 5, 9)
+        A, B = Blk(rng, A0, tc, mode, "A"), Blk(rng, B0, tc, mode, "B")
+        kw = E.dims(mode, m=m, n=n); kw.update(A.kw("ldA", "offsetA")); kw.update(B.kw("ldB", "offsetB"))
+        if uplo != "N" or rng.random() < 0.5:
+            kw["uplo"] = uplo
+        ok, _ = call(c, "lacpy", [A, B], kw, mutable=m > 0 and n > 0, grow=["m", "n"])
+        if ok:
+            msk = np.ones((m, n), dtype=bool) if uplo == "N" else (np.tril(np.ones((m, n), dtype=bool)) if uplo == "L"
+                                                                     else np.triu(np.ones((m, n), dtype=bool)))
+            got = B.get()
+            c.require(got[msk].tobytes() == A0[msk].tobytes(), "lacpy:part-not-copied", "lacpy(uplo=%s): copied part differs from A" % uplo,
+                      got=got, A=A0)
+            c.require(got[~msk].tobytes() == B0[~msk].tobytes(), "lacpy:footprint-triangle",
+                      "lacpy(uplo=%s) changed B outside the copied part" % uplo, got=got, B=B0)
+            E.untouched(c, "lacpy", "A-modified", A)
+            foot(c, "lacpy", B)
+        c.cls("lacpy", tc, mode, uplo, E.sz(m), E.sz(n))
+    elif which == "larfg":
+        nx = rng.choice([0, 1, 1, 2, 3, 5, 8])
+        kindx = rng.choice(["rand", "rand", "zero"])
+        x0 = R.rnd(rng, nx, 1, tc) if kindx == "rand" else np.zeros((nx, 1), dtype=R.dtype_of(tc))
+        al0 = R.rnd(rng, 1, 1, tc)
+        if tc == "z" and rng.random() < 0.3:
+            al0 = al0.real.astype(complex)
+        al = Blk(rng, al0, tc, mode, "alpha")
+        x = Blk(rng, x0, tc, mode, "x")
+        kw = E.dims(mode, n=nx + 1); kw.update(al.kw(None, "offseta")); kw.update(x.kw(None, "offsetx"))
+        ok, tau = call(c, "larfg", [al, x], kw, mutable=nx > 0, grow=["n"])
+        if ok:
+            foot(c, "larfg", al, x)
+            beta = al.vec()[0]
+            v = np.concatenate([[1.0], x.vec()[:nx]])
+            tau = complex(tau) if tc == "z" else float(tau)
+            Hm = np.eye(nx + 1) - tau * np.outer(v, np.conj(v))
+            y0 = np.concatenate([al0.reshape(-1), x0.reshape(-1)])
+            want = np.zeros(nx + 1, dtype=y0.dtype); want[0] = beta
+            resid(c, "aux", "larfg:reflection", R.H(Hm) @ y0 - want, E.nrm(y0), nx + 1, "larfg: H^H [alpha;x] - [beta;0]")
+            resid(c, "aux", "larfg:H-not-unitary", R.H(Hm) @ Hm - np.eye(nx + 1), 1.0, nx + 1, "larfg: H^H H - I")
+            c.require(abs(complex(beta).imag) == 0.0, "larfg:beta-not-real", "beta must be real", beta=beta)
+            resid(c, "aux", "larfg:beta-norm", np.array([abs(beta) - E.nrm(y0)]), E.nrm(y0), nx + 1, "larfg: |beta| = ||[alpha;x]||")
+        c.cls("larfg", tc, mode, E.sz(nx), kindx)
+    else:
+        m, n, side = E.pick_n(rng), E.pick_n(rng), rng.choice("LR")
+        lv = m if side == "L" else n
+        v0, C0 = R.rnd(rng, lv, 1, tc), R.rnd(rng, m, n, tc)
+        if lv and rng.random() < 0.5:
+            v0[0, 0] = 1.0
+        tau = complex(rng.uniform(-1, 2), rng.uniform(-1, 1)) if (tc == "z" and rng.random() < 0.7) else rng.uniform(-1, 2)
+        if rng.random() < 0.1:
+            tau = 0.0
+        v = Blk(rng, v0, tc, mode, "v")
+        Cb = Blk(rng, C0, tc, mode, "C")
+        kw = E.dims(mode, m=m, n=n); kw.update(v.kw(None, "offsetv")); kw.update(Cb.kw("ldC", "offsetC"))
+        if side == "R" or rng.random() < 0.5:
+            kw["side"] = side
+        ok, _ = call(c, "larfx", [v, tau, Cb], kw, mutable=m > 0 and n > 0, grow=["m", "n"])
+        if ok:
+            foot(c, "larfx", Cb)
+            E.untouched(c, "larfx", "v-modified", v)
+            Hm = np.eye(lv) - tau * (v0 @ R.H(v0))
+            want = Hm @ C0 if side == "L" else C0 @ Hm
+            resid(c, "aux", "larfx:wrong-product", Cb.get() - want, E.nrm(C0) * (1 + abs(tau) * E.nrm(v0) ** 2), max(m, n, 1),
+                  "larfx(side=%s,%dx%d): H C" % (side, m, n))
+        c.cls("larfx", tc, mode, side, E.sz(m), E.sz(n), "ctau" if isinstance(tau, complex) else "rtau")
+
+
+# ============================================================================
+# exactly singular / not positive definite inputs  ->  ArithmeticError
+# ============================================================================
+SING = ["gesv", "gesv+ipiv", "getrf", "getri", "gbsv", "gbsv+ipiv", "gbtrf", "gtsv", "gttrf", "posv", "potrf",
+        "pbsv", "pbtrf", "ptsv", "pttrf", "sysv", "sysv+ipiv", "sytrf", "hesv", "hesv+ipiv", "hetrf",
+        "trtrs", "trtri", "tbtrs", "sygv", "hegv"]
+
+
+def _int_matrix(rng, m, n, tc, lo=-3, hi=3):
+    import numpy as np
+    a = np.array([[rng.randint(lo, hi) for _ in range(n)] for _ in range(m)], dtype=float).reshape(m, n)
+    if tc == "z":
+        a = a + 1j * np.array([[rng.randint(lo, hi) for _ in range(n)] for _ in range(m)], dtype=float).reshape(m, n)
+    return a
+
+
+def fam_sing(E, c):
+    np, R, Blk, call = E.np, E.R, E.Blk, E.call
+    rng = c.rng
+    which = SING[(c.k // 23 + rng.randrange(len(SING))) % len(SING)]
+    fname = which.split("+")[0]
+    withp = which.endswith("+ipiv")
+    tc = E.pick_tc(rng, "d" if fname == "sygv" else "dz")
+    mode = E.pick_mode(rng)
+    n = rng.randint(2, 6)
+    nrhs = rng.choice([1, 2])
+    j = rng.randrange(n)
+    uplo = rng.choice("LU")
+    B0 = R.rnd(rng, n, nrhs, tc)
+    ERR = ArithmeticError
+    how = ""
+    junk = lambda p, q: 7.5
+    if fname in ("gesv", "getrf"):
+        A0 = _int_matrix(rng, n, n, tc)
+        how = rng.choice(["zero-column", "duplicate-rows", "zero-row"])
+        if how == "zero-column":
+            A0[:, j] = 0
+        elif how == "zero-row":
+            A0[j, :] = 0
+        else:
+            i2 = (j + 1 + rng.randrange(n - 1)) % n
+            A0[i2, :] = A0[j, :]
+        A = Blk(rng, A0, tc, mode, "A")
+        kw = E.dims(mode, n=n); kw.update(A.kw("ldA", "offsetA"))
+        if fname == "gesv":
+            B = Blk(rng, B0, tc, mode, "B")
+            kw.update(E.dims(mode, nrhs=nrhs)); kw.update(B.kw("ldB", "offsetB"))
+            args = [A, B] + ([Blk(rng, np.zeros(n), "i", mode, "ipiv", nooff=True)] if withp else [])
+        else:
+            kw.update(E.dims(mode, m=n))
+            args = [A, Blk(rng, np.zeros(n), "i", mode, "ipiv", nooff=True)]
+        call(c, fname, args, kw, expect=ERR)
+        if fname == "gesv" and not withp:
+            E.untouched(c, "gesv", "A-modified-without-ipiv", A)
+    elif fname == "getri":
+        A0 = np.triu(_int_matrix(rng, n, n, tc)) + np.diag(np.arange(1, n + 1))
+        A0[j, j] = 0
+        how = "zero-U-diagonal"
+        A = Blk(rng, A0, tc, mode, "A")
+        ip = Blk(rng, np.arange(1, n + 1), "i", mode, "ipiv", nooff=True)
+        kw = E.dims(mode, n=n); kw.update(A.kw("ldA", "offsetA"))
+        call(c, "getri", [A, ip], kw, expect=ERR)
+    elif fname in ("gbsv", "gbtrf"):
+        kl, ku = rng.choice([0, 1, 2]), rng.choice([0, 1, 2])
+        A0 = _int_matrix(rng, n, n, tc, 1, 4)
+        for i in range(n):
+            for q in range(n):
+                if i - q > kl or q - i > ku:
+                    A0[i, q] = 0
+        A0[:, j] = 0
+        how = "zero-column"
+        if fname == "gbsv":
+            A = Blk(rng, R.gb_pack(A0, kl, ku, kl if withp else 0, junk), tc, mode, "A")
+            B = Blk(rng, B0, tc, mode, "B")
+            kw = E.dims(mode, n=n, nrhs=nrhs, ku=ku); kw.update(A.kw("ldA", "offsetA")); kw.update(B.kw("ldB", "offsetB"))
+            args = [A, kl, B] + ([Blk(rng, np.zeros(n), "i", mode, "ipiv", nooff=True)] if withp else [])
+            call(c, "gbsv", args, kw, expect=ERR)
+            if not withp:
+                E.untouched(c, "gbsv", "A-modified-without-ipiv", A)
+        else:
+            A = Blk(rng, R.gb_pack(A0, kl, ku, kl, junk), tc, mode, "A")
+            kw = E.dims(mode, n=n, ku=ku); kw.update(A.kw("ldA", "offsetA"))
+            call(c, "gbtrf", [A, n, kl, Blk(rng, np.zeros(n), "i", mode, "ipiv", nooff=True)], kw, expect=ERR)
+    elif fname in ("gtsv", "gttrf"):
+        A0 = np.triu(np.tril(_int_matrix(rng, n, n, tc, 1, 4), 1), -1)
+        A0[:, j] = 0
+        how = "zero-column"
+        dl = Blk(rng, np.array([A0[i + 1, i] for i in range(n - 1)]), tc, mode, "dl")
+        d = Blk(rng, np.array([A0[i, i] for i in range(n)]), tc, mode, "d")
+        du = Blk(rng, np.array([A0[i, i + 1] for i in range(n - 1)]), tc, mode, "du")
+        kw = E.dims(mode, n=n); kw.update(dl.kw(None, "offsetdl")); kw.update(d.kw(None, "offsetd")); kw.update(du.kw(None, "offsetdu"))
+        if fname == "gtsv":
+            B = Blk(rng, B0, tc, mode, "B")
+            kw.update(E.dims(mode, nrhs=nrhs)); kw.update(B.kw("ldB", "offsetB"))
+            call(c, "gtsv", [dl, d, du, B], kw, expect=ERR)
+        else:
+            call(c, "gttrf", [dl, d, du, Blk(rng, np.zeros(n - 2), tc, mode, "du2", nooff=True),
+                              Blk(rng, np.zeros(n), "i", mode, "ipiv", nooff=True)], kw, expect=ERR)
+    elif fname in ("posv", "potrf", "pbsv", "pbtrf", "ptsv", "pttrf"):
+        how = rng.choice(["negative-diagonal", "rank-one-psd", "zero-diagonal"])
+        band = fname.startswith("pb") or fname.startswith("pt")
+        if how == "rank-one-psd":
+            A0 = np.ones((n, n), dtype=R.dtype_of(tc))
+            if band:                        # [[1,1],[1,1]] block on a unit diagonal: exact zero pivot in the 2nd step
+                A0 = np.eye(n, dtype=R.dtype_of(tc)); jj = min(j, n - 2)
+                A0[jj:jj + 2, jj:jj + 2] = 1.0
+        else:
+            A0 = np.eye(n, dtype=R.dtype_of(tc)) * 4.0
+            if not band:
+                off = _int_matrix(rng, n, n, tc, -1, 1)
+                off = np.tril(off, -1) * 0.25
+                A0 = A0 + off + R.H(off)
+            A0[j, j] = -1.0 if how == "negative-diagonal" else 0.0
+        ukw = {"uplo": uplo}
+        if fname in ("posv", "potrf"):
+            A = Blk(rng, R.junk_other_triangle(rng, A0, uplo, tc), tc, mode, "A")
+            kw = E.dims(mode, n=n); kw.update(A.kw("ldA", "offsetA")); kw.update(ukw)
+            args = [A]
+            if fname == "posv":
+                B = Blk(rng, B0, tc, mode, "B"); args.append(B)
+                kw.update(E.dims(mode, nrhs=nrhs)); kw.update(B.kw("ldB", "offsetB"))
+            call(c, fname, args, kw, expect=ERR)
+        elif fname in ("pbsv", "pbtrf"):
+            kd = rng.choice([1, 2])
+            A = Blk(rng, R.sb_pack(A0, kd, uplo, junk), tc, mode, "A")
+            kw = E.dims(mode, n=n, kd=kd); kw.update(A.kw("ldA", "offsetA")); kw.update(ukw)
+            args = [A]
+            if fname == "pbsv":
+                B = Blk(rng, B0, tc, mode, "B"); args.append(B)
+                kw.update(E.dims(mode, nrhs=nrhs)); kw.update(B.kw("ldB", "offsetB"))
+            call(c, fname, args, kw, expect=ERR)
+        else:
+            d = Blk(rng, np.real(np.diag(A0)), "d", mode, "d", tcrule="fixed")
+            e = Blk(rng, np.array([A0[i + 1, i] for i in range(n - 1)]), tc, mode, "e")
+            kw = E.dims(mode, n=n); kw.update(d.kw(None, "offsetd")); kw.update(e.kw(None, "offsete"))
+            args = [d, e]
+            if fname == "ptsv":
+                B = Blk(rng, B0, tc, mode, "B"); args.append(B)
+                kw.update(E.dims(mode, nrhs=nrhs)); kw.update(B.kw("ldB", "offsetB"))
+            call(c, fname, args, kw, expect=ERR)
+    elif fname in ("sysv", "sytrf", "hesv", "hetrf"):
+        herm = fname.startswith("he")
+        Lh = np.tril(_int_matrix(rng, n, n, tc), -1)
+        A0 = Lh + (R.H(Lh) if herm else Lh.T) + np.diag([float(rng.randint(-3, 3)) for _ in range(n)])
+        how = rng.choice(["zero-row-and-column", "zero-matrix"])
+        if how == "zero-matrix":
+            A0 = A0 * 0
+        A0[:, j] = 0; A0[j, :] = 0
+        A = Blk(rng, R.junk_other_triangle(rng, A0, uplo, tc), tc, mode, "A")
+        kw = E.dims(mode, n=n); kw.update(A.kw("ldA", "offsetA")); kw["uplo"] = uplo
+        if fname.endswith("sv"):
+            B = Blk(rng, B0, tc, mode, "B")
+            kw.update(E.dims(mode, nrhs=nrhs)); kw.update(B.kw("ldB", "offsetB"))
+            args = [A, B] + ([Blk(rng, np.zeros(n), "i", mode, "ipiv", nooff=True)] if withp else [])
+        else:
+            args = [A, Blk(rng, np.zeros(n), "i", mode, "ipiv", nooff=True)]
+        call(c, fname, args, kw, expect=ERR)
+        if fname.endswith("sv") and not withp:
+            E.untouched(c, fname, "A-modified-without-ipiv", A)
+    elif fname in ("trtrs", "trtri", "tbtrs"):
+        T0 = _int_matrix(rng, n, n, tc, 1, 3)
+        T0 = np.tril(T0) if uplo == "L" else np.triu(T0)
+        T0[j, j] = 0
+        how = "zero-diagonal"
+        trans = rng.choice("NTC")
+        if fname == "tbtrs":
+            kd = rng.choice([0, 1, 2])
+            A = Blk(rng, R.sb_pack(T0, kd, uplo, junk), tc, mode, "A")
+            B = Blk(rng, B0, tc, mode, "B")
+            kw = E.dims(mode, n=n, kd=kd, nrhs=nrhs); kw.update(A.kw("ldA", "offsetA")); kw.update(B.kw("ldB", "offsetB"))
+            kw.update({"uplo": uplo, "trans": trans, "diag": "N"})
+            call(c, "tbtrs", [A, B], kw, expect=ERR)
+        else:
+            A = Blk(rng, R.junk_other_triangle(rng, T0, uplo, tc), tc, mode, "A")
+            kw = E.dims(mode, n=n); kw.update(A.kw("ldA", "offsetA")); kw.update({"uplo": uplo, "diag": "N"})
+            args = [A]
+            if fname == "trtrs":
+                B = Blk(rng, B0, tc, mode, "B"); args.append(B)
+                kw.update(E.dims(mode, nrhs=nrhs)); kw.update(B.kw("ldB", "offsetB")); kw["trans"] = trans
+            call(c, fname, args, kw, expect=ERR)
+    else:   # sygv / hegv with B not positive definite
+        A0 = R.herm_with_eigs(rng, R.separated(rng, n), tc)
+        Bm = np.eye(n, dtype=R.dtype_of(tc)) * 2.0
+        how = rng.choice(["negative-diagonal", "zero-diagonal"])
+        Bm[j, j] = -1.0 if how == "negative-diagonal" else 0.0
+        A = Blk(rng, A0, tc, mode, "A"); B = Blk(rng, Bm, tc, mode, "B")
+        W = Blk(rng, np.zeros(n), "d", mode, "W", tcrule="fixed")
+        kw = E.dims(mode, n=n); kw.update(A.kw("ldA", "offsetA")); kw.update(B.kw("ldB", "offsetB")); kw.update(W.kw(None, "offsetW"))
+        kw.update({"itype": rng.choice([1, 2, 3]), "jobz": rng.choice("NV"), "uplo": uplo})
+        call(c, fname, [A, B, W], kw, expect=ERR)
+    c.cls("sing", which, tc, mode, how)
+
+
+FAMS = [("ge", fam_ge), ("gb", fam_gb), ("gt", fam_gt), ("po", fam_po), ("pb", fam_pb), ("pt", fam_pt),
+        ("sy", fam_sy_), ("he", fam_he), ("tr", fam_tr), ("gels", fam_gels), ("qr", fam_qr), ("lq", fam_lq),
+        ("qp3", fam_qp3), ("ev", fam_ev), ("evx", fam_evx), ("evx", fam_evx), ("gv", fam_gv), ("svd", fam_svd),
+        ("svd", fam_svd), ("gees", fam_gees), ("gges", fam_gges), ("aux", fam_aux), ("sing", fam_sing), ("sing", fam_sing)]
+
+
+def run(ctx):
+    E = make_env(ctx)
+    only = ctx.params.get("family")
+
+    def one(c):
+        rng = c.rng
+        if only:
+            name, fn = [f for f in FAMS if f[0] == only][0]
+        elif rng.random() < 0.75:
+            name, fn = FAMS[(c.k + ctx.worker * 5) % len(FAMS)]
+        else:
+            name, fn = rng.choice(FAMS)
+        c.desc["family"] = name
+        ctx.count("family." + name)
+        fn(E, c)
+        if c.k < 2:
+            ctx.sample({"family": name, "class": c.sig})
+
+    for k in ctx.cases():
+        ctx.run_case(k, {}, one)
